@@ -8,6 +8,8 @@ Two bounded-exhaustive explorations of the real code, each against a reference w
                     class in the style of XTBDriver (`@Job(...).prep`, `.post`, `Job.vectorize`);
                     oracle: every JobInput carries the settings of the driver instance it was
                     built through and the caller's arguments.
+  part A2 (lifetime) histories that also DROP drivers (a later driver may land on the same address) and
+                    RECONFIGURE live drivers / class-level defaults between uses; expected = current settings.
   part B (execution) every command list of length 1..L over the alphabet
                     {quiet, print, write a.dat, write b.bin, fail(3), read input file, echo $VAR}
                     x naming masks x requested return files (every subset, (), None) x text/binary
@@ -1399,6 +1401,8 @@ def run(ctx):
         "a command that cannot be started at all (no such executable) counts as a failing command: the run must not exit 0, later commands must not run, no scratch residue; whether the runner still writes a JobOutput or stops with the OS error is not constrained by the property text",
         "the text a shell prints when it cannot find a command (exit 127) is not checked",
         "settings precedence: class-level defaults < driver instance < settings declared on the Job itself (as Job.__get__ documents for envars); sharing of one envars dict object between JobInputs is counted in a note, not a violation - only mutation of shared settings objects is",
+"part A2: the expected settings are the driver's CURRENT settings at the time of prepare() when the job is fetched from the driver for that call; a job object fetched BEFORE a reconfiguration and used after it (held handle) may carry, field by field, either the settings as of its fetch or the current ones - the property text does not decide this; a job fetched after the change must reflect it. `memory` is not part of the property text (executable, processor count, environment) and is not checked",
+        "environment: a variable the job sets to the empty string must be SET and empty for the command (also when the runner's own environment has a value for it); variables that only the runner's environment has are not constrained; values are str (None values are outside JobInput's declared dict[str, str])",
         "return_files=None (the JobInput default, produced by every `@Job()` without return_files such as XTBDriver.energy_m) means 'no file requested'",
         "text input files are ASCII (the property does not fix an encoding for str file contents)",
         "command names are pairwise distinct and differ from file names",
